@@ -3,7 +3,7 @@
 # usage: ./mutcheck.sh <seeded-dir-or-patch> <check-id> [seconds]
 set -u
 P=$1; C=$2; S=${3:-60}
-[ -d "$P" ] && P="$P/patch.diff"
+P=$(realpath "$P"); [ -d "$P" ] && P="$P/patch.diff"
 if [ -n "$(git -C /repo status --porcelain)" ]; then echo "refusing: /repo has uncommitted changes"; exit 2; fi
 git -C /repo apply "$P" || { echo "patch does not apply"; exit 2; }
 mkdir -p /tmp/evid-mut
